@@ -1763,7 +1763,7 @@ impl Database {
 
                 let mut index_btree = BTree::new(&mut *index_storage, index_root_page)?;
 
-                for (_row_key, _old_value, new_row_values, old_row_values, _old_toast) in
+                for (row_key, _old_value, new_row_values, old_row_values, _old_toast) in
                     &rows_to_update
                 {
                     if let Some(old_value) = old_row_values.get(*col_idx) {
@@ -1778,15 +1778,7 @@ impl Database {
                         if !new_value.is_null() {
                             key_buf.clear();
                             Self::encode_value_as_key(new_value, &mut key_buf);
-                            if let Some(pk_idx) = columns
-                                .iter()
-                                .position(|c| c.has_constraint(&Constraint::PrimaryKey))
-                            {
-                                if let Some(OwnedValue::Int(pk_val)) = new_row_values.get(pk_idx) {
-                                    let row_id_bytes = (*pk_val as u64).to_be_bytes();
-                                    let _ = index_btree.insert(&key_buf, &row_id_bytes);
-                                }
-                            }
+                            let _ = index_btree.insert(&key_buf, row_key);
                         }
                     }
                 }
@@ -1851,15 +1843,7 @@ impl Database {
                         if row_key_suffix {
                             key_buf.extend_from_slice(row_key);
                         }
-                        if let Some(pk_idx) = columns
-                            .iter()
-                            .position(|c| c.has_constraint(&Constraint::PrimaryKey))
-                        {
-                            if let Some(OwnedValue::Int(pk_val)) = new_row_values.get(pk_idx) {
-                                let row_id_bytes = (*pk_val as u64).to_be_bytes();
-                                let _ = index_btree.insert(&key_buf, &row_id_bytes);
-                            }
-                        }
+                        let _ = index_btree.insert(&key_buf, row_key);
                     }
                 }
             }
